@@ -294,6 +294,7 @@ def draw_modal(ch, rng, nmax=6):
     full_b = ch.flip(1, 3, "full_b")
     mkind = ch.weighted([2, 2, 1], "mkind")  # None, vector, full
     diag2d = ch.flip(1, 4, "diag_as_2d")  # uncoupled matrices handed over as 2-D (diagonal) arrays
+    forder = ch.flip(1, 3, "matrices_F_ordered")
     desc = dict(n=n, nrb=nrb, nel=nel, nrf=nrf, full_k=full_k, full_b=full_b, mkind=mkind, rf_mask=rfmodes is not None and rfmodes.dtype == bool, rf_at=[int(i) for i in rf_idx] if nrf else [])
 
     def values(rng):
@@ -329,6 +330,12 @@ def draw_modal(ch, rng, nmax=6):
             m = md
         elif mkind == 2:
             m = block_full(md, el_idx, 0.1)
+        if forder:
+            # column-major 2-D matrices (as read from OUTPUT4 / MATLAB files): a partition of
+            # such a matrix can be a view where the C-ordered one gives a copy
+            k, b = (np.asfortranarray(x) if np.ndim(x) == 2 else x for x in (k, b))
+            if m is not None and np.ndim(m) == 2:
+                m = np.asfortranarray(m)
         if diag2d:
             k = np.diag(k) if np.ndim(k) == 1 else k
             b = np.diag(b) if np.ndim(b) == 1 else b
